@@ -254,6 +254,9 @@ def run(c, facts):
     c.shared(R4, c08.r3_eager, 'C08.R3', facts)
     c.run(r5_name_agree, facts)
     c.run(r6_enum_map, facts)
+    import c03
+    R11 = c.rule('C02.R11', 'COMPONENT-KEPT: a declared @reference that the document refers to is emitted under components.schemas, with the name the $ref uses (shared with C03.R1)')
+    c.shared(R11, c03.r1_ref_close, 'C03.R1', facts)
     R10 = c.rule('C02.R10', 'RESOURCES-COMPLETE: every `res` statement of the main program is emitted (Program::resources yields all of them)')
     c.run(lambda c: c10.accessor_complete(c, facts, R10, 'oal_syntax::parser::Program::resources', 'resource'))
     c.run(r7_fallback_order, facts)
